@@ -40,6 +40,9 @@ func alterMessages() []alterMsg {
 		{Name: "ecdsa-p256-sha256-attr", Spec: sdSpec{Signers: one("ec-0", "sha256", false), Len: 20}, Trust: true},
 		{Name: "ecdsa-p384-sha384-noattr", Spec: sdSpec{Signers: one("ec-1", "sha384", true), Len: 20}},
 		{Name: "ecdsa-p521-sha512-digest", Spec: sdSpec{Mode: modeDigest, Signers: one("ec-2", "sha512", true), Len: 20}},
+		{Name: "ecdsa-p224-sha256-noattr", Spec: sdSpec{Signers: one("ec-4", "sha256", true), Len: 20}, Trust: true},
+		{Name: "ecdsa-p521-sha384-attr", Spec: sdSpec{Signers: one("ec-2", "sha384", false), Len: 20}, Trust: true},
+		{Name: "rsa2048-sha384-attr-detached", Spec: sdSpec{Mode: modeDetached, Signers: one("rsa-2048", "sha384", false), Len: 30}},
 		{Name: "mixed-three-signers", Spec: sdSpec{SM: true, Signers: []signerSpec{{Id: "sm2-direct", Digest: "sm3"}, {Id: "rsa-4", Digest: "sha256", ExtraUnsigned: 1}, {Id: "ec-3", Digest: "sha512", NoAttr: true}}, Len: 40}, Trust: true},
 	}
 }
